@@ -47,4 +47,8 @@ func init() {
 	// C02.grpcBlockPrefetch / C02.jsonBlockPrefetch: the raw-object cache (bigcache behind hugecache)
 	// is a map kept by the harness; the GetNodeByCid model consults it first
 	c02Redirect("(*github.com/rpcpool/yellowstone-faithful/huge-cache.Cache).PutRawCarObject", "c02Model_cachePut")
+	c02Redirect("(*github.com/rpcpool/yellowstone-faithful/huge-cache.Cache).GetRawCarObject", "c02Model_cacheGet")
+	// C02.nodeRead / C02.blockSchedCar: the local CAR file behind (*Epoch).GetNodeByOffsetAndSize is the
+	// harness's model CAR (go-car/v2's Reader is library code); everything after DataReader() is real
+	c02Redirect("(*github.com/ipld/go-car/v2.Reader).DataReader", "c02Model_carDataReader")
 }
